@@ -71,14 +71,19 @@ end KMap
 /-! ### the informer cache -/
 
 theorem mkEntry_key (cfg : Cfg) (o : Obj) : (mkEntry cfg o).key = o.key := by
-  unfold mkEntry; split <;> rfl
+  unfold mkEntry; cases cfg.hasFilter <;> cases cfg.keepFull <;> rfl
 
-theorem mkEntry_fr (cfg : Cfg) (o : Obj) : (mkEntry cfg o).fr = cfg.flt o.content := by
-  unfold mkEntry; split <;> rfl
+theorem mkEntry_fr (cfg : Cfg) (o : Obj) :
+    (mkEntry cfg o).fr = if cfg.hasFilter then cfg.flt o.content else 0 := by
+  unfold mkEntry; cases cfg.hasFilter <;> cases cfg.keepFull <;> rfl
+
+theorem mkEntry_sum (cfg : Cfg) (o : Obj) :
+    (mkEntry cfg o).sum = if cfg.hasFilter then cfg.chk (cfg.flt o.content) else cfg.chk o.content := by
+  unfold mkEntry; cases cfg.hasFilter <;> cases cfg.keepFull <;> rfl
 
 theorem mkEntry_obj (cfg : Cfg) (o : Obj) :
     (mkEntry cfg o).obj = if cfg.keepFull then some o.content else none := by
-  unfold mkEntry; cases cfg.keepFull <;> simp
+  unfold mkEntry; cases cfg.hasFilter <;> cases cfg.keepFull <;> rfl
 
 theorem mkEntry_isSome (cfg : Cfg) (o : Obj) : (mkEntry cfg o).obj.isSome = cfg.keepFull := by
   rw [mkEntry_obj]; cases cfg.keepFull <;> simp
